@@ -115,7 +115,7 @@ func runC07_1(c *core.Ctx) {
 				p := &flow.Problem{Must: true}
 				p.Edge = func(e *flow.Edge, in uint64) uint64 {
 					if e.Cond != nil && e.Tag == nil {
-						if x, y, op, ok := flow.Cmp(e.Cond); ok && flow.IsNil(f.Info, y) && flow.ObjOf(f.Info, x) == errRes && errRes != nil {
+						if x, y, op, ok := flow.Cmp(e.Cond); ok && flow.IsNil(f.Info, y) && errRes != nil && (flow.ObjOf(f.Info, x) == errRes || copyOfInside(f, fl, x) == errRes) {
 							if (op == token.NEQ && e.Sense) || (op == token.EQL && !e.Sense) {
 								in |= fErr
 							}
@@ -599,4 +599,29 @@ func runC07_7(c *core.Ctx) {
 	if nsites == 0 {
 		c.Ok(open.Name, "no Close on failure paths", open.Decl.Pos(), "OpenPoller does not call Close itself")
 	}
+}
+
+// copyOfInside: x is a local of the literal that is defined once, inside the literal, as a plain copy of
+// another variable (`if err := *errp; err != nil` after the pointer was resolved) – the copy is taken when
+// the literal runs, so testing it is testing that variable.
+func copyOfInside(f *fn, lit *ast.FuncLit, x ast.Expr) types.Object {
+	v, ok := flow.ObjOf(f.Info, x).(*types.Var)
+	if !ok || v.IsField() {
+		return nil
+	}
+	def := singleDef(f, v)
+	if def == nil {
+		return nil
+	}
+	inside := false
+	ast.Inspect(lit.Body, func(n ast.Node) bool {
+		if n == ast.Node(def) {
+			inside = true
+		}
+		return !inside
+	})
+	if !inside {
+		return nil
+	}
+	return flow.ObjOf(f.Info, def)
 }
